@@ -278,12 +278,14 @@ def run(ctx: Ctx) -> None:
     quick = ctx.quick
     # (1) TLC: table invariants on the complete product, cases with <= MaxFaults deviating dimensions are emitted
     k = 2 if quick else 3
-    nfull, cases = table.walk(ctx, "wire", "ReqClassWalk", constants={"MaxFaults": k}, invariants=WALK_INVS,
-                              name=f"ReqClass full product: table invariants; oracle emitted for <= {k} deviations")
+    nfull, cases = table.walk(ctx, "wire", "ReqClassWalk", constants={"MaxFaults": k, "FullProduct": not quick},
+                              invariants=WALK_INVS,
+                              name=(f"ReqClass {'classes within reach of the emission bound' if quick else 'full product'}: "
+                                    f"table invariants; oracle emitted for <= {k} deviations"))
     cases += table.enumerate_cases(ctx, "wire", "ReqClass", constants={"MaxFaults": k}, cases="Bytes",
                                    expected="ExpectedBytes", name="ReqClass damaged-bytes classes")
     ctx.exhaustive = True
-    ctx.extra["table"] = {"full_product_classes": nfull, "emitted_max_faults": k, "emitted_cases": len(cases)}
+    ctx.extra["table"] = {"classes_walked": nfull, "full_fresh_connection_product": not quick, "emitted_max_faults": k, "emitted_cases": len(cases)}
     ctx.rule = ("case = one request class of ReqClass!Cases (all classes with at most MaxFaults deviating dimensions x "
                 "all 8 method-key classes; the table invariants are checked on the full product) or one damaged-bytes "
                 "class; non-trivial = distinct (concrete request bytes, server world, transport) executed on a live "
@@ -366,9 +368,9 @@ def _run_requests(ctx: Ctx, cases, segs, servers, conns: Conns, obs: list) -> No
         isolated = shm_case or case["hist"] != "fresh"      # needs a connection of its own (per-connection state)
         nfaults = cj["faults"]
         # number of concrete variants per class: most for the classes next to an ordinary request
-        if nfaults >= 3 and isolated:       # (fresh connection per execution: the expensive ones)
-            plan = [("Ve", ["pipe", "unix", "pipe", "tcp"][ci % 4], ci % 12)]
-        elif nfaults >= 3 or (quick and nfaults == 2):
+        if (nfaults >= 3 and isolated) or (quick and nfaults == 2):   # the many far classes: one execution each
+            plan = [("Ve", ["pipe", "unix", "pipe", "tcp", "pipe", "shmpipe"][ci % 6], ci % 12)]
+        elif nfaults >= 3:
             plan = [("Ve", "pipe", 0), ("Ve", ["unix", "pipe", "tcp", "shmpipe"][ci % 4], 1)]
         else:
             plan = [("Ve", "pipe", 0), ("Ve", "pipe", 1), ("Ve", "unix", 2), ("Ve", "pipe", 3), ("Ve", "tcp", 4),
